@@ -182,6 +182,11 @@ class FSock:
             self.fired = ("recv", f)
             raise sock_err(f)
         left = self.plan.get("data", 0) - self.produced
+        if left > 0 and self.plan.get("data_after_eof") and not self.shutdown_called:
+            # an application that speaks only AFTER it has seen the far end's end-of-stream (a client that sends its
+            # next request on a connection the server has half-closed): until then it is idle
+            self.w.rec["recv"] = "a"
+            raise sock_err(errno.EAGAIN)
         if left > 0 and (self.w.eager or rng.random() < self.plan.get("p_recv", 0.8)):
             k = min(left, n, rng.choice(self.plan.get("chunks", [1, 7, 100, 2047, 2048, 2049, 4096, 65536])))
             d = pattern(self.tag, self.produced, k)
@@ -1154,6 +1159,7 @@ def gen_case(rng, profile, quick=True):
     c = {"profile": profile, "seed": rng.randrange(1 << 30), "maxc": 65535, "lbs": 32768, "latency": True,
          "flows": [], "iters": 60}
     r2 = random.Random(c["seed"] ^ 0x2b5)       # later-added dimensions draw here: the older ones keep their sequence
+    r3 = random.Random(c["seed"] ^ 0x6a31)      # ... (endpoint failure next to an idle endpoint)
     nflows = rng.choice([1, 1, 2, 3, 4])
     big = rng.random() < (0.15 if quick else 0.3)
     if profile == "wrap":
@@ -1331,6 +1337,21 @@ def gen_case(rng, profile, quick=True):
                     e = r2.choice([x for x in EST if kind == "send" or x != errno.EPIPE])
                 who["fault"] = (kind, rng.randint(0, 6), e)
                 who["faulty"] = True
+        if profile in ("fault", "close", "wrap") and r3.random() < (0.25 if profile == "fault" else 0.08):
+            # an endpoint fails while the other endpoint does nothing by itself (see endpoint_failure_shapes): the
+            # tear-down has to come from the tunnel ends alone; among other flows, under the random schedule
+            sa, sd_ = r3.choice(endpoint_failure_shapes())
+            keep = {k: app[k] for k in ("tag", "dial") if k in app}
+            app = dict(sa, **keep)
+            dst = dict(sd_, tag=dst["tag"])
+            if dst["connect"][-1] == "n":
+                dst["connect"] = ["p"] * r3.randint(1, 4) + ["n"]
+                dst["connect_errno"] = r3.choice(NET)
+                if dst.get("einval") and c.get("platform") == "win32":
+                    del dst["einval"]
+            else:
+                dst["fault"] = ("send", 0, r3.choice([errno.EPIPE, errno.ECONNRESET, errno.ETIMEDOUT, errno.EHOSTUNREACH]))
+                app["data"] = r3.choice([1, 5, 300, 5000])
         c["flows"].append((app, dst))
     if profile == "fault" and c.get("platform") is None:
         r = rng.random()
@@ -1448,6 +1469,87 @@ def first_difference(got, written):
 
 def faulty_flow(app, dst):
     return bool(app.plan.get("faulty") or dst.plan.get("faulty"))
+
+
+def endpoint_failures(app, dst):
+    """what the ENVIRONMENT answered that ends a flow as a whole (harness-side record, not the code's own flags):
+    a refused / reset connect, an error of recv() / send() / shutdown() on the established socket.  EPIPE on send() is
+    not one: the code treats it as "the peer stopped reading" — a half-close, the other direction lives on."""
+    out = []
+    if dst is not None and dst.last_conn == "n":
+        out.append(("the destination refused / reset the connection %s" % (
+            "in a LATER event-loop round than the one that created the flow (connect() answered in-progress first)"
+            if dst.connect_calls > 1 else "at the first connect() call"),
+            "connect() -> %s" % errno.errorcode.get(dst.plan.get("connect_errno", errno.ECONNREFUSED), "?")))
+    for who, s in (("application", app), ("destination", dst)):
+        if s is not None and s.fired and not (s.fired[0] == "send" and s.fired[1] == errno.EPIPE):
+            out.append(("the %s's socket failed in %s()" % (who, s.fired[0]),
+                        "%s %s() -> %s" % (who, s.fired[0], errno.errorcode.get(s.fired[1], str(s.fired[1])))))
+    return out
+
+
+def teardown_oracles(w, stale=False):
+    """C02 at quiescence (nothing on the way, no queue holds a message, three rounds without any change — both loops
+    sleep in select()), implementation only:
+    (A) the coupling every sleeping end has established (model: Props/C02.v c02_no_lost_wakeup — every handler the
+        loop still runs has s.shut_write => m.shut_read and m.shut_write => s.shut_read; mechanism "pre_select couples
+        shut_write of one side to noread of the other"): a handler whose socket is shut for writing has told the peer to
+        stop sending, a handler whose tunnel side is shut for writing (own EOF out / peer's STOP_SENDING in) no longer
+        reads its socket.  Otherwise the flow is half open with nothing pending — for ever if the endpoint stays idle;
+    (B) "or either endpoint fails, both tunnel ends shut their sockets, drop the flow's handler and make its identifier
+        reusable within bounded work": a flow one of whose endpoints failed is finished at BOTH ends — all four
+        directions shut, identifier released (the handler itself may linger in the shape of finding F20, which has
+        its own oracle)."""
+    out = []
+    ends = {"c": "client", "s": "server"}
+    for f, pc in enumerate(w.prox["c"]):
+        ps = w.prox["s"][f] if f < len(w.prox["s"]) else None
+        if ps is not None and ps.wrap1.channel != pc.wrap2.channel:
+            continue
+        app = pc.wrap1.rsock
+        dst = ps.wrap2.rsock if ps is not None else None
+        failures = endpoint_failures(app, dst)
+        idle = {"application_sent": len(app.rd), "application_closed": bool(app.eof_seen),
+                "destination_sent": len(dst.rd) if dst is not None else 0,
+                "destination_closed": bool(dst.eof_seen) if dst is not None else False}
+        for side, p in (("c", pc), ("s", ps)):
+            if p is None:
+                continue
+            sw = p.wrap1 if side == "c" else p.wrap2
+            mw = p.wrap2 if side == "c" else p.wrap1
+            cb = w.mux[side].channels.get(mw.channel)
+            registered = cb is not None and getattr(cb, "__self__", None) is mw
+            in_loop = p in w.handlers[side]
+            flags = {"socket_shut_read": bool(sw.shut_read), "socket_shut_write": bool(sw.shut_write),
+                     "tunnel_shut_read": bool(mw.shut_read), "tunnel_shut_write": bool(mw.shut_write)}
+            det = dict({"flow": f, "side": side, "identifier": mw.channel, "identifier_still_registered": registered,
+                        "handler_still_in_the_loop": in_loop, "what_the_environment_answered": [x[1] for x in failures],
+                        "connect_calls_at_the_destination": dst.connect_calls if dst is not None else 0}, **dict(flags, **idle))
+            silent = ("the application is silent (has sent nothing, does not close)" if side == "s" and not app.rd and not app.eof_seen
+                      else "the local application is idle now and does not close" if side == "c" and not app.eof_seen
+                      else "nothing is pending")
+            hit_a = False
+            if in_loop and p.ok:
+                if sw.shut_write and not mw.shut_read:
+                    hit_a = True
+                    out.append(("quiescent, yet the %s end holds a half-open flow with nothing pending: its socket is shut for "
+                                "writing%s, %s, but it never sent STOP_SENDING — its tunnel side is still open for reading, the "
+                                "handler and the identifier stay until the other endpoint happens to close"
+                                % (ends[side], " (" + failures[0][0] + ")" if failures else "", silent), det))
+                if mw.shut_write and not sw.shut_read:
+                    hit_a = True
+                    out.append(("quiescent, yet the %s end keeps a half-open flow for ever with nothing pending: its tunnel "
+                                "side is shut for writing (own end-of-stream sent / the far end's STOP_SENDING received, after "
+                                "its EOF), %s, but it still reads its socket and keeps socket and handler — what the "
+                                "endpoint writes later goes to an identifier the peer has released"
+                                % (ends[side], silent), det))
+            if failures and not stale and not hit_a:
+                torn = all(flags.values())
+                if not torn or registered:
+                    out.append(("an endpoint of a flow failed, yet at quiescence — nothing pending anywhere — the %s end of the "
+                                "tunnel has not finished with the flow (sockets shut, identifier released): it is never torn down "
+                                "unless the surviving endpoint closes by itself" % ends[side], det))
+    return out
 
 
 def check_oracles(w):
@@ -1591,6 +1693,9 @@ def check_oracles(w):
                     out["C02"].append(("quiescent, both directions of a flow are shut, yet its identifier is still registered "
                                        "(never reusable)", det))
                     out["C06"].append(("the channel table still holds the identifier of a wrapper whose both directions are shut", det))
+    if getattr(w, "calm", 0) >= 3 and not w.crash and w.model_cut is None:
+        for what, det in teardown_oracles(w, stale):
+            out["C02"].append((what, det))
     # at quiescence no complete message may sit undispatched in a Mux input buffer
     if getattr(w, "calm", 0) >= 3 and not w.crash:
         for side in ("c", "s"):
@@ -1814,6 +1919,47 @@ def quiet_tunnel_cases():
     return out
 
 
+def endpoint_failure_shapes():
+    """(application plan, destination plan) pairs in which an ENDPOINT FAILS while the other endpoint does nothing by
+    itself — so whatever tears the flow down has to come from the tunnel ends alone (C02: "or either endpoint fails,
+    both tunnel ends shut their sockets, drop the flow's handler and make its identifier reusable"):
+      S1  the destination refuses / resets the connect in a LATER event-loop round than the one that created the flow
+          (the non-blocking connect answers "in progress" first — every non-local destination), the application is
+          silent: it has sent nothing and does not close.  The server learns of the failure inside Proxy.callback
+          (try_connect -> seterr) and sends its end-of-stream in the same callback: from then on BOTH write sides of
+          its handler are shut while the tunnel wrapper is still open for reading;
+      S2  the destination half-closes (the client end passes the end-of-stream on: shutdown(SHUT_WR) on the
+          application's socket) and then dies: the application's next bytes — it speaks only after it has seen the
+          end-of-stream, and never closes — are answered EPIPE / ECONNRESET at the destination, the server sends
+          STOP_SENDING after its EOF: at the client BOTH write sides are shut while the local socket is still read."""
+    out = []
+    for plan, e in ((["p", "n"], errno.ECONNREFUSED), (["p", "p", "n"], errno.ECONNRESET), (["p", "p", "p", "n"], errno.ETIMEDOUT),
+                    (["p", "n"], errno.EHOSTUNREACH)):
+        out.append(({"data": 0, "close": False},
+                     {"data": 0, "close": False, "connect": list(plan), "connect_errno": e, "faulty": True}))
+    out.append(({"data": 0, "close": False},
+                {"data": 0, "close": False, "connect": ["p", "p", "n"], "connect_errno": errno.ECONNREFUSED, "einval": True,
+                 "faulty": True}))
+    for e, back, conn in ((errno.EPIPE, 0, ["d"]), (errno.ECONNRESET, 7, ["p", "d"]), (errno.ETIMEDOUT, 300, ["d"])):
+        out.append(({"data": 5, "close": False, "data_after_eof": True},
+                    {"data": back, "close": True, "connect": list(conn), "fault": ("send", 0, e), "faulty": True}))
+    return out
+
+
+def endpoint_failure_cases():
+    """the shapes above as the only flow, and as a late flow on a quiet tunnel (both ends asleep in select() after an
+    earlier, finished connection), with latency control on and off"""
+    first = ({"tag": 1, "data": 10, "close": True, "p_recv": 1.0}, {"tag": 2, "data": 10, "close": True, "connect": ["d"], "p_recv": 1.0})
+    out = []
+    for n, (app, dst) in enumerate(endpoint_failure_shapes()):
+        for k, (latency, late) in enumerate(((True, 1), (False, 0)) if n % 2 == 0 else ((False, 1), (True, 0))):
+            a, d = dict(app, tag=3, p_recv=1.0), dict(dst, tag=4, p_recv=1.0)
+            flows = [(dict(first[0]), dict(first[1])), (a, d)] if late else [(a, d)]
+            out.append({"profile": "fault", "seed": 7100 + 2 * n + k, "maxc": 65535, "lbs": 32768, "latency": latency,
+                        "iters": 60 if late else 0, "late": late, "flows": flows})
+    return out
+
+
 def code_frames(exc):
     """the frames of an exception's traceback that lie inside the sshuttle package ("file:line in function")"""
     import traceback
@@ -1867,6 +2013,8 @@ def stream_check(ctx, prop, profiles, n_quick, n_thorough, tail_profiles=()):
             yield extra.pop(0) if extra else gen_case(rng, profiles[i % len(profiles)], ctx.quick())
         # (added later, hence after the others: the cases above keep their random sequence)
         for c_ in endpoint_error_cases(rng, ctx.quick()):
+            yield c_
+        for c_ in endpoint_failure_cases():
             yield c_
         for p_ in tail_profiles:
             for _ in range(10 if ctx.quick() else 150):
@@ -1965,8 +2113,10 @@ class ServerChild:
         s1, self.sock = real_socket.socketpair()
         code = ("import sshuttle.server as s; s.main(%r, %d, False, None, False)" % (bool(latency), lbs))
         try:
+            import tempfile
+            self.errf = tempfile.TemporaryFile()        # what the server says on stderr (why it ended, if it does)
             self.p = subprocess.Popen([sys.executable, "-c", code], stdin=s1.fileno(), stdout=s1.fileno(),
-                                      stderr=subprocess.DEVNULL, close_fds=True)
+                                      stderr=self.errf, close_fds=True)
         finally:
             s1.close()
         self.buf = b""              # bytes received from the server and not yet consumed
@@ -2056,9 +2206,20 @@ class ServerChild:
                 idle = 0
         return "timeout"
 
+    def stderr_tail(self):
+        try:
+            self.errf.seek(0)
+            return self.errf.read()[-1500:].decode("latin-1")
+        except Exception:
+            return ""
+
     def close(self):
         try:
             self.sock.close()
+        except Exception:
+            pass
+        try:
+            self.errf.close()
         except Exception:
             pass
         try:
@@ -2141,7 +2302,10 @@ def server_reader_run(child, kind, spec, prop, listener=None):
     total = spec
     host, port = listener.getsockname()[:2]
     data = pattern(3, 0, total)
-    chan = 1 + (total % 50)
+    # a fresh identifier for every connection sent to this child: the harness plays the client, and a client never
+    # re-uses an identifier whose flow the server may still hold
+    child.chan_counter = getattr(child, "chan_counter", 0) + 1
+    chan = child.chan_counter
     seg = _frame(chan, 0x4203, b"%d,%s,%d" % (int(real_socket.AF_INET), host.encode(), port))
     for off in range(0, total, 2048):
         seg += _frame(chan, 0x4206, data[off:off + 2048])
@@ -2263,6 +2427,8 @@ def server_reader_check(ctx, prop, only=None):
                                 "through holds them back (read-ahead)")
                     if det["server_state"] == "died":
                         what = ("the real server.main ended while acting on messages delivered to its descriptor 0 in one segment")
+                        det["exit_status"] = child.p.poll()
+                        det["server_stderr_tail"] = child.stderr_tail()
                     found.append(det)
                     ctx.violation(what, {"server_reader": det})
                     break               # the child's stream position is no longer known: next buffer size, fresh child
@@ -2297,4 +2463,13 @@ def stream_replay(ctx, rp, prop):
         # a stored witness of a numbered finding fails again only if THAT failure recurs (other known findings may
         # show on the same case)
         hits = [h for h in hits if h[0] == rp["what"]]
+    else:
+        # ... and a stored witness of anything else does not "fail again" merely because a RECORDED known finding
+        # (reported as KNOWN-FINDING by a full run, never as a violation) shows on the same case
+        try:
+            import framework
+            known_ids = {k["id"] for k in framework.load_known(prop)["findings"]}
+        except Exception:
+            known_ids = set()
+        hits = [h for h in hits if not (h[1].get("finding_id") and h[1]["finding_id"] in known_ids)]
     return bool(hits) or bool(ctx.disagreements)
